@@ -7,7 +7,10 @@ under `core.lean_lock()`.  The table-level theorems of C03/C19 (`decide` over th
 prefix-freeness, disjointness from the ways a pickle can start, alignment fits one byte, ...) are
 therefore re-proved against what the code says NOW.
 
-Called by the C03 and C19 checks on every run (`prepare(ctx)` / first statement of `run(ctx)`).
+Called by the C03 and C19 checks on every run (`prepare(ctx)`, which core.run_check calls before the proof
+audit, and again as the first statement of `run(ctx)`).  When the tree under check is not /repo (VERIF_REPO =
+a mutant or a candidate fix) the previous content of the file is put back when the check process exits, so
+the committed file always describes /repo.
 
 What is extracted, and from where:
 
